@@ -235,13 +235,25 @@ func macroexpand(ctx context.Context, ast MalType, env EnvType) (MalType, error)
 		if e != nil {
 			return nil, e
 		}
-		if expansion, ok := ast.(List); ok && expansion.Cursor == nil {
-			// code generated by a macro is reported at the macro call
-			expansion.Cursor = callCursor
-			ast = expansion
-		}
+		// code generated by a macro is reported at the macro call
+		ast = positionGenerated(ast, callCursor)
 	}
 	return ast, nil
+}
+
+// positionGenerated gives every list a macro has generated (one without a position
+// of its own, at any depth) the position of the macro call; forms taken from the
+// source keep theirs.
+func positionGenerated(form MalType, at *Position) MalType {
+	lst, ok := form.(List)
+	if !ok || at == nil || lst.Cursor != nil {
+		return form
+	}
+	val := make([]MalType, len(lst.Val))
+	for i, x := range lst.Val {
+		val[i] = positionGenerated(x, at)
+	}
+	return List{Val: val, Meta: lst.Meta, Cursor: at}
 }
 
 func eval_ast(ctx context.Context, ast MalType, env EnvType) (MalType, error) {
